@@ -42,7 +42,7 @@ theorem slots_upd (k : Nat) (f : Entry → Entry) (items : List Entry) (hf : ∀
 theorem storeGet_fifo_qstep {cfg : Cfg} (hp : cfg.policy = .fifo) (now tick cap t : Nat)
     (items : List Entry) (k : Nat) :
     QStep cfg.ttl now cap t items (storeGet cfg now tick items k).1 := by
-  unfold storeGet
+  rw [storeGet_eq]; unfold storeGetC
   split
   · exact .same rfl
   · rename_i e hf
